@@ -67,3 +67,10 @@ Theorem C02_cross_or_climb : forall sp cons fuel, dims_ok sp -> forall parents t
   cross_or_climb sp cons fuel parents t = Ok (p, t', c) -> emit_ok sp cons p /\ is_suffix t' t /\ 0 < c.
 Proof. exact cross_or_climb_ok. Qed.
 Print Assumptions C02_cross_or_climb.
+
+(* evolution strategy: one individual / mutation branch = the member's hill-climbing iterate; crossover branch = recombination of
+   two current positions (population order after the unstable argsort is an oracle), constraint test, move_climb fallback *)
+Theorem C02_es_iterate : forall sp cons fuel rrp, dims_ok sp -> forall mut curs t p t' c, Forall (in_box sp) curs -> nan_free t ->
+  es_iterate sp cons fuel rrp mut curs t = Ok (p, t', c) -> emit_ok sp cons p /\ is_suffix t' t.
+Proof. exact es_iterate_ok. Qed.
+Print Assumptions C02_es_iterate.
